@@ -41,6 +41,49 @@ fn run(rt: &tokio::runtime::Runtime, raw: &[u8], cuts: &[usize]) -> Result<Vec<V
     r.map_err(panic_text)
 }
 
+/// The same stream through the public `beast::receiver` (the consumer of next_msg that stamps the
+/// messages and hands them to a bounded queue), fed over a loopback TCP connection, with a queue
+/// of `cap` places and a reader that only starts after the whole stream was written: every frame
+/// next_msg hands on must reach the queue's reader (back-pressure, never loss).  Returns the payloads
+/// (message bytes after the 9-byte Beast header) or None when no loopback connection is possible.
+fn run_receiver(raw: &[u8], cap: usize) -> Option<Result<Vec<Vec<u8>>, String>> {
+    use rs1090::prelude::TimedMessage;
+    use rs1090::source::beast::{receiver, BeastSource};
+    use tokio::io::AsyncWriteExt;
+    let rt = tokio::runtime::Builder::new_multi_thread().worker_threads(2).enable_all().build().ok()?;
+    let raw = raw.to_vec();
+    let res = rt.block_on(async move {
+        let listener = tokio::net::TcpListener::bind("127.0.0.1:0").await.ok()?;
+        let addr = listener.local_addr().ok()?;
+        let (tx, mut rx) = tokio::sync::mpsc::channel::<TimedMessage>(cap);
+        let h = tokio::spawn(async move {
+            let _ = receiver(BeastSource::Tcp(addr.to_string()), tx, 1, None).await;
+        });
+        let (mut sock, _) = tokio::time::timeout(std::time::Duration::from_secs(5), listener.accept()).await.ok()?.ok()?;
+        sock.write_all(&raw).await.ok()?;
+        sock.flush().await.ok()?;
+        // the reader starts late: meanwhile the queue is full and the receiver must wait
+        tokio::time::sleep(std::time::Duration::from_millis(250)).await;
+        let mut out = Vec::new();
+        let mut panicked = false;
+        loop {
+            match tokio::time::timeout(std::time::Duration::from_millis(400), rx.recv()).await {
+                Ok(Some(m)) => out.push(m.frame),
+                Ok(None) => {
+                    panicked = h.is_finished();
+                    break;
+                }
+                Err(_) => break,
+            }
+        }
+        h.abort(); // the connection is still open: the receiver is waiting on the socket
+        drop(sock);
+        Some(if panicked { Err("receiver ended".to_string()) } else { Ok(out) })
+    });
+    rt.shutdown_background();
+    res
+}
+
 fn frames_json(v: &[Vec<u8>]) -> Value {
     Value::Array(v.iter().map(|f| bytes_json(f)).collect())
 }
@@ -53,6 +96,7 @@ fn main() {
     let seed: u64 = a[2].parse().unwrap();
     let pair_range: usize = a[3].parse().unwrap();
     let n_random: usize = a[4].parse().unwrap();
+    let rx_every: usize = a.get(5).and_then(|x| x.parse().ok()).unwrap_or(usize::MAX).max(1);
     let rt = tokio::runtime::Builder::new_current_thread().build().unwrap();
     let mut rng = Rng(seed);
     for (id, v) in vectors.iter().enumerate() {
@@ -108,8 +152,27 @@ fn main() {
                 }
             }
         }
+        // every RX_EVERY-th stream also goes through beast::receiver with a 2-place queue
+        let mut rx = 0;
+        let mut rx_same = true;
+        let mut rx_out = json!([]);
+        if id % rx_every == rx_every - 1 {
+            if let (Ok(sg), Some(r)) = (&single, run_receiver(&raw, 2)) {
+                rx = 1;
+                let want: Vec<Vec<u8>> = sg.iter().map(|m| m[9.min(m.len())..].to_vec()).collect();
+                match r {
+                    Ok(got) => {
+                        rx_same = got == want;
+                        if !rx_same {
+                            rx_out = frames_json(&got);
+                        }
+                    }
+                    Err(_) => rx_same = false,
+                }
+            }
+        }
         tr.emit(json!({
-            "e": "beast", "id": id,
+            "e": "beast", "id": id, "rx": rx, "rx_same": rx_same, "rx_out": rx_out,
             "frames": v["frames"], "raw": v["raw"],
             "single": single.as_ref().map(|o| frames_json(o)).unwrap_or(json!([])),
             "single_panic": single.is_err(),
